@@ -616,9 +616,46 @@ def _wrapper_analysis(ctx) -> list[Inst]:
     return out
 
 
+def _target_steps(ctx) -> list[Inst]:
+    """TARGETSTEPS  in LanguageGraph._generate_graph the step a reaches expression leads to is looked up among the steps
+    of the TARGET ASSET that process_step_expression returned (already flattened over inheritance) - not in the list of
+    all step nodes of the graph, where the first step of that name belongs to whichever type was generated first."""
+    fname = 'LanguageGraph._generate_graph'
+    if not ctx.prog.has_func(fname):
+        return []
+    f = ctx.prog.func(fname)
+    rel = f.module.relpath
+    out = []
+    tvars = set()
+    for n in own_nodes(f.node):
+        if isinstance(n, ast.Assign) and isinstance(n.value, ast.Call) and stmt_text(n.value.func).split('.')[-1] == 'process_step_expression' \
+                and isinstance(n.targets[0], (ast.Tuple, ast.List)) and n.targets[0].elts and isinstance(n.targets[0].elts[0], ast.Name):
+            tvars.add(n.targets[0].elts[0].id)
+    if not tvars:
+        return []
+    construct = 'TARGETSTEPS: the linked step is found among the target asset\'s steps'
+    for n in own_nodes(f.node):
+        gens = n.generators if isinstance(n, (ast.GeneratorExp, ast.ListComp)) else []
+        for g in gens:
+            if isinstance(g.iter, ast.Attribute) and g.iter.attr == 'attack_steps' and isinstance(g.target, ast.Name) \
+                    and any('.name' in stmt_text(c, 100) and 'attack_step_name' in stmt_text(c, 100) or
+                            ('.name ==' in stmt_text(c, 100)) for c in g.ifs):
+                base = g.iter.value
+                if isinstance(base, ast.Name) and base.id in tvars:
+                    out.append(Inst(RULE, f.short, construct, 'ok', file=rel, line=n.lineno, props=('C15', 'C03')))
+                elif isinstance(base, ast.Name) and base.id == f.self_name:
+                    out.append(Inst(
+                        RULE, f.short, construct, 'violation',
+                        msg=(f"the step is searched in '{stmt_text(g.iter)}', the step nodes of ALL types: the first node of "
+                             f"that name wins, so a reference is linked to the same-named step of an ancestor or of an "
+                             f"unrelated type instead of the target asset's own step node"),
+                        file=rel, line=n.lineno, props=('C15', 'C03', 'C01')))
+    return out
+
+
 def run(ctx) -> list[Inst]:
     prog = ctx.prog
-    insts = _closure_functions(ctx) + _wrapper_analysis(ctx)
+    insts = _closure_functions(ctx) + _wrapper_analysis(ctx) + _target_steps(ctx)
     insts += _nearest_wins(ctx)
     insts += _closure_pass(ctx)
     insts += _member_direction(ctx)
